@@ -26,8 +26,9 @@ def sh(cmd, cwd=None, timeout=1800):
     return subprocess.run(cmd, shell=True, cwd=cwd, env=ENV, stdout=subprocess.PIPE, stderr=subprocess.STDOUT, text=True, timeout=timeout)
 
 
-def confirm(d):
+def confirm(d, race=False):
     d = os.path.abspath(d)
+    raceflag = "-race " if race else ""
     wt = "/tmp/seed-confirm-%d" % os.getpid()
     sh(f"git -C /repo worktree remove --force {wt}")
     r = sh(f"git -C /repo worktree add --detach {wt}")
@@ -42,7 +43,7 @@ def confirm(d):
         # demo without the patch: run only the tests defined in the demo file
         names = [l.split("(")[0].split()[1] for l in open(demo) if l.startswith("func Test")]
         pat = "^(" + "|".join(names) + ")$"
-        r = sh(f"go test -vet=off -count=1 -run '{pat}' .", cwd=wt)
+        r = sh(f"go test {raceflag}-vet=off -count=1 -run '{pat}' .", cwd=wt)
         res["demo_without_patch"] = "pass" if r.returncode == 0 else "FAIL"
         res["demo_tests"] = names
         a = sh(f"git apply {os.path.join(d, 'patch.diff')}", cwd=wt)
@@ -52,10 +53,14 @@ def confirm(d):
         res["apply"] = "ok"
         b = sh("go build ./... && go vet . 2>&1 | head -3", cwd=wt)
         res["build"] = "ok" if b.returncode == 0 else "FAIL " + b.stdout[-300:]
-        r = sh(f"go test -vet=off -count=1 -run '{pat}' .", cwd=wt)
+        r = sh(f"go test {raceflag}-vet=off -count=1 -run '{pat}' .", cwd=wt)
         res["demo_with_patch"] = "FAIL" if r.returncode != 0 else "pass"
         os.remove(os.path.join(wt, "zz_seeded_demo_test.go"))
-        s = sh("go test -vet=off -count=1 ./...", cwd=wt)
+        for attempt in range(4):
+            s = sh("go test -vet=off -count=1 .", cwd=wt)
+            if s.returncode == 0 or "address already in use" not in s.stdout:
+                break  # (the suite binds port 1234: retry when another suite holds it)
+            time.sleep(5)
         res["suite_with_patch"] = "pass" if s.returncode == 0 else "FAIL " + s.stdout[-400:]
         res["ok"] = (res["demo_without_patch"] == "pass" and res["demo_with_patch"] == "FAIL" and res["suite_with_patch"] == "pass" and res["build"] == "ok")
     finally:
@@ -81,7 +86,9 @@ def run(sid, props):
             r = sh(f"./check {p} --tier quick", cwd=VERIF, timeout=2400)
             verdict = {0: "MISSED", 1: "caught", 2: "inconclusive"}.get(r.returncode, str(r.returncode))
             first = [l for l in r.stdout.splitlines() if l.startswith(("VIOLATION", "INCONCLUSIVE"))]
-            out[p] = {"verdict": verdict, "seconds": round(time.time() - t0, 1), "line": first[0][:200] if first else ""}
+            out[p] = {"verdict": verdict, "seconds": round(time.time() - t0, 1), "line": first[0][:200] if first else "", "cmd": f"git -C /repo apply seeded/{sid}/patch.diff; ./check {p} --tier quick; git -C /repo checkout -- ."}
+            meta.setdefault("checks_run", {})[p] = out[p]
+            json.dump(meta, open(os.path.join(d, "meta.json"), "w"), indent=1)
             print(f"{sid:28s} {p} {verdict:12s} {time.time()-t0:6.1f}s {first[0][:120] if first else ''}", flush=True)
     finally:
         sh("git -C /repo checkout -- .")
@@ -93,7 +100,7 @@ def main():
         print(__doc__)
         return 2
     if sys.argv[1] == "confirm":
-        print(json.dumps(confirm(sys.argv[2]), indent=1))
+        print(json.dumps(confirm(sys.argv[2], race="--race" in sys.argv), indent=1))
         return 0
     if sys.argv[1] == "run":
         run(sys.argv[2], sys.argv[3:])
